@@ -29,6 +29,7 @@ import (
 type reuseSession struct {
 	sid      string
 	opener   string // peer lib
+	taker    string // a session the peer opens is taken with: accept / expect (Listener.Expect for exactly this peer and sid)
 	carrier  string // iq message
 	packets  []int  // sizes of the peer's data packets
 	writes   []int  // sizes of the library's writes (each flushed)
@@ -41,7 +42,7 @@ type reuseCase struct{ sessions []reuseSession }
 func (c reuseCase) String() string {
 	var sb strings.Builder
 	for i, s := range c.sessions {
-		fmt.Fprintf(&sb, "\n  session %d: sid=%q opened-by=%s carrier=%s close-again-on-finished=%v peer-packets=%v library-writes=%v closed-by=%s", i, s.sid, s.opener, s.carrier, s.staleOps, s.packets, s.writes, s.closer)
+		fmt.Fprintf(&sb, "\n  session %d: sid=%q opened-by=%s taken-with=%s carrier=%s close-again-on-finished=%v peer-packets=%v library-writes=%v closed-by=%s", i, s.sid, s.opener, s.taker, s.carrier, s.staleOps, s.packets, s.writes, s.closer)
 	}
 	return sb.String()
 }
@@ -55,6 +56,10 @@ func genReuse(t *rapid.T) reuseCase {
 			opener:  rapid.SampledFrom([]string{"peer", "lib"}).Draw(t, "opener"),
 			carrier: rapid.SampledFrom([]string{"iq", "message"}).Draw(t, "carrier"),
 			closer:  rapid.SampledFrom([]string{"peer", "lib"}).Draw(t, "closer"),
+			taker:   rapid.SampledFrom([]string{"accept", "expect"}).Draw(t, "taker"),
+		}
+		if s.opener != "peer" {
+			s.taker = "-"
 		}
 		for k := rapid.IntRange(0, 3).Draw(t, "npackets"); k > 0; k-- {
 			s.packets = append(s.packets, rapid.IntRange(0, 9).Draw(t, "psize"))
@@ -149,7 +154,17 @@ func checkReuse(t interface {
 		var conn net.Conn
 		if s.opener == "peer" {
 			acc := make(chan net.Conn, 1)
-			go func() { cn, _ := ln.Accept(); acc <- cn }()
+			if s.taker == "expect" {
+				ectx, ecancel := context.WithCancel(context.Background())
+				defer ecancel()
+				go func() { cn, _ := ln.Expect(ectx, jid.MustParse(peerJID), s.sid); acc <- cn }()
+				// the expectation must be pending when the <open/> arrives
+				for i := 0; i < 2000 && len(wire.BlockedMatching("ibb.(*Listener).Expect")) == 0; i++ {
+					time.Sleep(time.Millisecond)
+				}
+			} else {
+				go func() { cn, _ := ln.Accept(); acc <- cn }()
+			}
 			rid := id("op")
 			kind, ok := request(fmt.Sprintf("session %d: peer <open sid=%q/>", si, s.sid), openIQ(rid, s.sid, 4096, s.carrier), rid)
 			if !ok {
@@ -161,8 +176,11 @@ func checkReuse(t interface {
 			select {
 			case conn = <-acc:
 			case <-time.After(opTimeout):
-				inconclusive("Accept did not return")
+				inconclusive("Accept / Expect did not return")
 				return
+			}
+			if conn == nil {
+				fail("session %d: the peer's <open/> was accepted but %s returned no connection", si, s.taker)
 			}
 		} else {
 			out, ok := call(fmt.Sprintf("session %d: OpenIQ sid=%q", si, s.sid), func() string {
@@ -288,7 +306,7 @@ func checkReuse(t interface {
 func TestC15Reuse(t *testing.T) {
 	ev.Check(t, 150, 2000, func(rt *rapid.T) {
 		c := genReuse(rt)
-		reused, stale := false, false
+		reused, stale, expected := false, false, false
 		seen := map[string]bool{}
 		for _, s := range c.sessions {
 			if seen[s.sid] {
@@ -298,6 +316,9 @@ func TestC15Reuse(t *testing.T) {
 			if len(s.staleOps) > 0 {
 				stale = true
 			}
+			if s.taker == "expect" {
+				expected = true
+			}
 		}
 		classes := []string{"reuse"}
 		if reused {
@@ -306,7 +327,10 @@ func TestC15Reuse(t *testing.T) {
 		if stale {
 			classes = append(classes, "finished-connection-closed-again")
 		}
-		ev.Case(reused || stale, c.String(), classes...)
+		if expected {
+			classes = append(classes, "session-taken-with-Expect")
+		}
+		ev.Case(reused || stale || expected, c.String(), classes...)
 		checkReuse(rt, c)
 	})
 }
